@@ -38,6 +38,9 @@ def contract_modules():
     return out
 
 
+# bounded stand-ins per property (pyvc/bounded.py); C19 is decided by its bounded item alone
+BOUNDED = {'C19': ['rays'], 'C06': ['occlusion', 'rays'], 'C12': ['dijkstra'], 'C01': ['dijkstra']}
+
 _V = None
 
 
@@ -80,6 +83,18 @@ def _work(idx):
 def list_contracts(repo):
     _init_worker(repo)
     return [(i, c.name, c.fn.module.name, c.target, list(c.props), c.kind) for i, c in enumerate(_V.contracts)]
+
+
+def run_bounded(item, tier, seed):
+    env = dict(os.environ)
+    env['PYVC_REPO'] = REPO
+    env.pop('PYTHONPATH', None)
+    p = subprocess.run([NATIVE_PY, os.path.join(VERIF, 'pyvc', 'bounded.py'), item, tier, str(seed)],
+                       capture_output=True, text=True, timeout=7200, env=env, cwd=VERIF)
+    lines = [l for l in p.stdout.strip().splitlines() if l.startswith('{')]
+    if not lines:
+        raise RuntimeError(f'bounded harness failed: {p.stderr[-2000:]}')
+    return json.loads(lines[-1])
 
 
 def native(cmd, timeout=600):
@@ -161,12 +176,18 @@ def main(argv=None):
     ledger_path = os.path.join(VERIF, 'contracts', 'ledger.json')
     ledger = json.load(open(ledger_path)) if os.path.exists(ledger_path) else {}
     props = [a.prop] if a.prop and a.prop != 'all' else sorted({p for c in contracts for p in c[4]})
+    if a.prop and a.prop != 'all':
+        props = [a.prop]
+    else:
+        props = sorted(set(props) | set(BOUNDED))
     sel = [c for c in contracts if set(c[4]) & set(props) and (not a.only or c[1] in a.only)]
-    if not sel:
+    if not sel and not any(p in BOUNDED for p in props):
         print(f'CHECKER-ERROR no contracts for {props}')
         return 3
-    with mp.Pool(min(a.jobs, len(sel)), initializer=_init_worker, initargs=(REPO,), maxtasksperchild=1) as pool:
-        results = pool.map(_work, [c[0] for c in sel], chunksize=1)
+    results = []
+    if sel:
+        with mp.Pool(min(a.jobs, len(sel)), initializer=_init_worker, initargs=(REPO,), maxtasksperchild=1) as pool:
+            results = pool.map(_work, [c[0] for c in sel], chunksize=1)
     if a.update_ledger:
         led = dict(ledger) if a.prop and a.prop != 'all' else {}
         for p in props:
@@ -177,11 +198,12 @@ def main(argv=None):
         ledger = led
     rc = 0
     for p in props:
-        rc = max(rc, report(p, [r for r in results if p in r['props']], {} if a.only else ledger, a.tier, seed, t_start))
+        rc = max(rc, report(p, [r for r in results if p in r['props']], {} if a.only else ledger, a.tier, seed, t_start,
+                            only_mode=bool(a.only)))
     return rc
 
 
-def report(prop, results, ledger, tier, seed, t_start):
+def report(prop, results, ledger, tier, seed, t_start, only_mode=False):
     findings, _ = load_known()
     os.makedirs(os.path.join(VERIF, 'replays'), exist_ok=True)
     os.makedirs(os.path.join(VERIF, 'evidence'), exist_ok=True)
@@ -240,20 +262,23 @@ def report(prop, results, ledger, tier, seed, t_start):
         if kf is not None:
             lines.append(f"KNOWN-FINDING: property={prop} {o['id']}: {kf.get('text', '')}")
             continue
+        # did the native replay evaluate this very clause on the extracted input and find it true?
+        clause_passed_natively = bool(native_res) and native_res.get('pre_ok') and any(
+            c[0] == rp['clause'] and c[1] for c in native_res.get('clauses', []))
         if confirmed:
             lines.append(f'VIOLATION property={prop} replay={rp_path}')
             violations += 1
-        elif o['status'] == 'failed':
-            # counterexample of the model does not reproduce on the real code: engine/model gap
+        elif o['status'] == 'failed' and clause_passed_natively:
+            # the model's counterexample does not reproduce on the real code: engine/model gap, not a verdict
             undecided.append({'obligation': o['id'], 'reason': 'symbolic counterexample not reproduced natively'})
             lines.append(f"UNDECIDED obligation={o['id']} reason=counterexample-not-reproduced replay={rp_path}")
+        elif o['id'] in expected:
+            # an obligation that is discharged on the committed tree can no longer be discharged
+            lines.append(f'VIOLATION property={prop} replay={rp_path} no-failing-input-found')
+            violations += 1
         else:
-            if o['id'] in expected:
-                lines.append(f'VIOLATION property={prop} replay={rp_path} no-failing-input-found')
-                violations += 1
-            else:
-                undecided.append({'obligation': o['id'], 'reason': 'solver unknown (never discharged before)'})
-                lines.append(f"UNDECIDED obligation={o['id']} reason=solver-unknown")
+            undecided.append({'obligation': o['id'], 'reason': f"{o['status']} (never discharged before)"})
+            lines.append(f"UNDECIDED obligation={o['id']} reason={o['status']}-not-in-ledger")
     # 2. unsupported contracts: bounded native stand-in
     bounded = []
     for name, why in unsupported.items():
@@ -322,10 +347,32 @@ def report(prop, results, ledger, tier, seed, t_start):
                 else:
                     lines.append(f'VIOLATION property={prop} replay={rp_path}')
                     violations += 1
+    # 4. bounded stand-ins of this property
+    bounded_runs = []
+    checker_error = None
+    for item in ([] if only_mode else BOUNDED.get(prop, [])):
+        try:
+            br = run_bounded(item, tier if tier in ('quick', 'thorough') else 'quick', seed)
+        except Exception as e:
+            checker_error = f'bounded item {item}: {str(e)[-300:]}'
+            continue
+        bounded_runs.append(br)
+        bounded.append({'what': br['what'], 'bound': br['bound'], 'evaluations': br['evaluations'],
+                        'failures': len(br['failures']), 'exhaustive': br.get('exhaustive', False)})
+        for k, f in enumerate(br['failures'][:1]):
+            oid = f'bounded.{item}/{f.get("what", "failure").replace(" ", "-")[:60]}'
+            rp_path = os.path.join(VERIF, 'replays', f"{prop}-{oid.replace('/', '-')}.json")
+            json.dump({'property': prop, 'obligation': oid, 'verdict': 'bounded-enumeration', 'inputs': f,
+                       'solver_output': 'failing case of the bounded native check ' + br['what']}, open(rp_path, 'w'), indent=1)
+            kf = match_known(findings, prop, oid, None)
+            if kf is not None:
+                lines.append(f"KNOWN-FINDING: property={prop} {oid}: {kf.get('text', '')}")
+            else:
+                lines.append(f'VIOLATION property={prop} replay={rp_path}')
+                violations += 1
     n_ob = len(obligations)
     n_dis = sum(1 for o in obligations if o['status'] == 'discharged')
-    checker_error = None
-    if n_ob == 0 and not unsupported:
+    if n_ob == 0 and not unsupported and not bounded_runs:
         checker_error = 'zero obligations generated'
     if hard_missing:
         checker_error = f'obligations in ledger but not generated: {hard_missing[:5]}'
@@ -361,8 +408,19 @@ def report(prop, results, ledger, tier, seed, t_start):
         'wall_s': round(time.time() - t_start, 3),
         'violations': violations,
     }
-    if ev['level'] == 'other' and n_ob == 0:
-        ev['coverage']['obligations'] = 0
+    if n_ob == 0 and bounded_runs:
+        ev['level'] = 'exploration'
+        ev['coverage'].update({
+            'evaluations': sum(b['evaluations'] for b in bounded_runs),
+            'distinct_nontrivial': sum(b['distinct_nontrivial'] for b in bounded_runs),
+            'rule': '; '.join(b['what'] + ' -- ' + b['bound'] for b in bounded_runs)
+                    + '; non-trivial = distinct (area, origin, ray) with more than one cell',
+            'samples': [x for b in bounded_runs for x in b['samples']],
+            'exhaustive': all(b.get('exhaustive') for b in bounded_runs),
+            'explanation': 'bounded exhaustive enumeration on the real functions (no deductive part: float trigonometry)',
+        })
+        for k_ in ('obligations', 'discharged'):
+            ev['coverage'].pop(k_, None)
     json.dump(ev, open(os.path.join(VERIF, 'evidence', f'{prop}.json'), 'w'), indent=1)
     for l in lines:
         print(l)
